@@ -76,6 +76,11 @@ type Field struct {
 	FlattenPrefix   *string   `json:"flatten_prefix,omitempty"`
 	Examples        []string  `json:"examples,omitempty"`
 	Rules           *Rules    `json:"rules,omitempty"`
+	// PresentEmpty names sebuf field annotations to set in their PRESENT-BUT-EMPTY form (the option is on
+	// the field, its value is the zero value): field_examples ({}), query ({}), unwrap / nullable / flatten
+	// (false), oneof_value / flatten_prefix (""), int64_encoding / enum_encoding / empty_behavior /
+	// timestamp_format / bytes_encoding (UNSPECIFIED). Ignored for an annotation the field sets otherwise.
+	PresentEmpty []string `json:"present_empty,omitempty"`
 }
 
 type QueryCfg struct {
@@ -131,6 +136,8 @@ type Service struct {
 	BasePath    string    `json:"base_path,omitempty"`
 	Headers     []*Header `json:"headers,omitempty"`
 	Methods     []*Method `json:"methods,omitempty"`
+	// HeadersEmpty: (sebuf.http.service_headers) = {} — present, no required_headers (only when Headers is empty)
+	HeadersEmpty bool `json:"headers_empty,omitempty"`
 }
 
 type Method struct {
@@ -141,6 +148,8 @@ type Method struct {
 	Path      string    `json:"path,omitempty"`
 	Verb      string    `json:"verb,omitempty"` // "", GET, POST, PUT, DELETE, PATCH
 	Headers   []*Header `json:"headers,omitempty"`
+	// HeadersEmpty: (sebuf.http.method_headers) = {} — present, no required_headers (only when Headers is empty)
+	HeadersEmpty bool `json:"headers_empty,omitempty"`
 }
 
 // FindMessage resolves a fully-qualified message name within the request.
